@@ -48,6 +48,10 @@ def run(ctx, report):
     # clauses 3-5
     from . import c18_grammar
     c18_grammar.run(ctx, report)
+    # the value classes on a grid of values (==, !=, hash folded), and the receiver after relativizing / fitting
+    from . import geometry_value_fold, webvtt_layout_fold
+    report.section("values on a grid", geometry_value_fold.run, ctx, report)
+    report.section("WebVTT cue settings on a grid", webvtt_layout_fold.run, ctx, report, {"mutated": ("R-IMMUT", "2")})
 
     report.not_decided.append("float equality subtleties of particular magnitudes; hash collisions")
     report.assume("Enum members compare by identity and hash consistently (stdlib enum)")
